@@ -382,7 +382,7 @@ def drivers():
 # --------------------------------------------------------------------------
 # part: id table
 # --------------------------------------------------------------------------
-def part_id_table(ctx):
+def part_id_table(ctx, nontrivial):
     """Every game id alone through the real decoder == my ordered-pair row."""
     from moptipyapps.ttp.game_encoding import map_games
     cnt = 0
@@ -398,6 +398,7 @@ def part_id_table(ctx):
             y = np.full((n - 1, n), FILL, y_dtype(n))
             map_games(np.array([g], np.int64), y)
             cnt += 1
+            nontrivial.add((n, 0, exp.tobytes()))
             ok = np.array_equal(y, exp)
             if ok and n % 2 == 0:
                 # same game through the public API (two rounds: all ids
@@ -1026,7 +1027,7 @@ def run(ctx: Ctx) -> None:
     warm()
     ctx.log("drivers compiled")
     nontrivial = set()
-    part_id_table(ctx)
+    part_id_table(ctx, nontrivial)
     part_search_space(ctx)
     part_public_trees(ctx, nontrivial)
     part_reuse(ctx)
@@ -1044,16 +1045,16 @@ def run(ctx: Ctx) -> None:
         outcome_classes += kernel_tree(ctx, n, rounds, split)
     if ctx.quick:
         ctx.cap("complete permutation trees of (4,2) [12! leaves] and (3,5) "
-                "[756 756 000 leaves] only in thorough; quick covers them by "
-                "the complete BFS over their distinct partial plans")
+                "[756 756 000 leaves] only in thorough; quick covers (4,2) "
+                "by the complete BFS over its distinct partial plans")
     # BFS over distinct partial plans (depth = number of games = complete
     # state space where it equals the permutation length)
     if ctx.quick:
-        bfs = [(4, 2, 12), (3, 5, 15), (6, 1, 8), (4, 3, 7), (6, 2, 5),
+        bfs = [(4, 2, 12), (6, 1, 8), (4, 3, 7), (6, 2, 5),
                (5, 2, 6), (7, 1, 5), (8, 1, 4), (4, 4, 6), (5, 3, 5),
                (10, 1, 3), (16, 1, 2)]
     else:
-        bfs = [(4, 2, 12), (3, 5, 15), (3, 6, 18), (6, 1, 10), (4, 3, 9),
+        bfs = [(4, 2, 12), (6, 1, 10), (4, 3, 9),
                (6, 2, 6), (5, 2, 7), (7, 1, 6), (8, 1, 5), (4, 4, 8),
                (5, 3, 6), (6, 3, 5), (10, 1, 4), (12, 1, 3), (16, 1, 3),
                (16, 2, 2)]
@@ -1066,9 +1067,10 @@ def run(ctx: Ctx) -> None:
         "per (n, rounds): every prefix of every permutation with repetition "
         "of the real blueprint (complete trees), every distinct (partial "
         "plan, remaining multiset) state to the stated depth (BFS), a fixed "
-        "family of complete permutations; non-trivial = distinct decoded "
-        "plans in which a game had to skip day 0 or was dropped (public "
-        "trees, family, <= 2000 per BFS level) + distinct "
+        "family of complete permutations; non-trivial = distinct expected "
+        "plans compared with the real decoder: every single game of every n "
+        "(id table) + plans in which a game had to skip day 0 or was "
+        "dropped (public trees, family, <= 2000 per BFS level) + distinct "
         "dropped-game counts over the leaves of each kernel tree")
     rng = np.random.default_rng(ctx.seed)
     for n, rounds in ((4, 1), (3, 2), (4, 3), (6, 1)):
